@@ -77,6 +77,11 @@ def family(rng, sym):
             fam["v6"] = v
     for d in fam.values():
         d["fill"] = {"start": 1, "step": 1, "alt": True}
+    # the same structure with other element types (a cached plan must not remember the element type)
+    for nm, dt in (("v7", "complex128"), ("v8", "float32")):
+        v = copy.deepcopy(base)
+        v["dtype"] = dt
+        fam[nm] = v
     return fam
 
 
